@@ -151,3 +151,16 @@ def unwire(w):
     if isinstance(w, dict):
         return {k: unwire(v) for k, v in w.items()}
     return w
+
+
+_STD_EXC = (KeyError, IndexError, ValueError, TypeError, AttributeError, OverflowError, ZeroDivisionError, RuntimeError,
+            ArithmeticError, LookupError, OSError)
+
+
+def excname(e):
+    """the name an exception is recorded under: that of the first standard class it is an instance of (a library is free to
+    raise its own subclasses of ValueError / RuntimeError / KeyError; the statements name the standard classes), else its own"""
+    for c in _STD_EXC:
+        if isinstance(e, c):
+            return c.__name__
+    return type(e).__name__
